@@ -137,7 +137,11 @@ def clauses(c, for_replace=False):
             if not for_replace:
                 for path, ct in u.scalar_leaves(it.rec):
                     g = ghost_name(it.ptr, path)
-                    out.append("__CPROVER_requires((%s)->%s == %s)" % (it.ptr, path[1:], g))
+                    if ct.strip() in ("float", "double"):  # NaN != NaN: pin the bit pattern, not the value
+                        w = "32" if ct.strip() == "float" else "64"
+                        out.append("__CPROVER_requires(SPEC_BITS_f%s((%s)->%s) == SPEC_BITS_f%s(%s))" % (w, it.ptr, path[1:], w, g))
+                    else:
+                        out.append("__CPROVER_requires((%s)->%s == %s)" % (it.ptr, path[1:], g))
         elif isinstance(it, SET):
             out.append("__CPROVER_requires(%s == (%s))" % (it.lv, it.expr))
         elif isinstance(it, INRANGE):
